@@ -159,15 +159,6 @@ example : decrypt7 "08".toList = .error .attributeError := by decide +kernel
 
 /-! ### types 8, 9 and 5: layout -/
 
-theorem fmt_split (k salt h : Str) (hk : '$' ∉ k) (hs : '$' ∉ salt) (hh : '$' ∉ h) :
-    splitOn '$' (fmt k salt h) = [[], k, salt, h] := by
-  have e : fmt k salt h = [] ++ '$' :: (k ++ '$' :: (salt ++ '$' :: h)) := by simp [fmt]
-  rw [e, splitOn_append _ _ _ (by simp), splitOn_append _ _ _ hk, splitOn_append _ _ _ hs,
-    splitOn_no_sep _ _ hh]
-
-theorem no_dollar (s : Str) (h : ∀ c ∈ s, isCiscoChar c = true) : '$' ∉ s :=
-  fun hm => dollar_not_cisco _ (h _ hm) rfl
-
 /-- **Type 8 layout.**  For every PBKDF2 that returns `dklen` bytes, every salt the fourteen-step loop can
 build and every accepted password, the output is `$8$` + the 14 salt characters + `$` + 43
 characters of the Cisco alphabet, and splitting on `$` gives back the salt and the hash. -/
@@ -214,6 +205,45 @@ theorem type5_format (kdf : Md5Crypt)
   · simp only [encryptType5, hp]
     rw [if_neg (by simpa using hnul)]; rfl
   · exact fmt_split ['1'] salt _ (by decide) (no_dollar _ hc) (no_dollar _ hcc)
+
+/-- `type8_9_format` of the design: both layouts at once. -/
+theorem type8_9_format (k8 : Pbkdf2) (k9 : Scrypt)
+    (h8 : ∀ algo pw s r n, (k8 algo pw s r n).length = n) (h9 : ∀ pw s N r p n, (k9 pw s N r p n).length = n)
+    (salt pwd : Str) (hs : ValidSalt 14 salt) (hp : pwdCheck pwd = .ok ()) :
+    (∃ h, encryptType8 k8 salt pwd = .ok ("$8$".toList ++ salt ++ '$' :: h) ∧ h.length = 43 ∧
+      (∀ c ∈ h, isCiscoChar c = true) ∧ splitOn '$' ("$8$".toList ++ salt ++ '$' :: h) = [[], ['8'], salt, h]) ∧
+    (∃ h, encryptType9 k9 salt pwd = .ok ("$9$".toList ++ salt ++ '$' :: h) ∧ h.length = 43 ∧
+      (∀ c ∈ h, isCiscoChar c = true) ∧ splitOn '$' ("$9$".toList ++ salt ++ '$' :: h) = [[], ['9'], salt, h]) := by
+  obtain ⟨a, e1, _, e2, e3, e4, _⟩ := type8_format k8 h8 salt pwd hs hp
+  obtain ⟨b, f1, _, f2, f3, f4, _⟩ := type9_format k9 h9 salt pwd hs hp
+  exact ⟨⟨a, e1, e2, e3, e4⟩, ⟨b, f1, f2, f3, f4⟩⟩
+
+/-! ### types 8, 9, 5: "verify when recomputed" — PARTIAL
+
+Full statement (NOT proved; the KDFs are not defined in Lean):
+  `encrypt_type_8 pwd = "$8$" ++ salt ++ "$" ++ cisco64 (PBKDF2-HMAC-SHA256 (pwd, salt, c = 20000, dkLen = 32))`,
+  `encrypt_type_9 pwd = "$9$" ++ salt ++ "$" ++ cisco64 (scrypt (pwd, salt, N = 16384, r = 1, p = 1, dkLen = 32))`,
+  `encrypt_type_5 pwd = "$1$" ++ salt ++ "$" ++ MD5-crypt (pwd, salt)`.
+Proved: the same equations with `kdf` standing for whatever `hashlib.pbkdf2_hmac`, `scrypt.hash`, passlib's
+`md5_crypt` compute — i.e. which function is called, on which bytes, with which numerals (read from the
+source by the translator), and that nothing but the alphabet translation and the dropped `=` happens to
+the answer.  Missing: `kdf` = the mathematical KDF.  That part is measured on every run by recomputing each
+generated hash from its embedded salt with independent code. -/
+theorem type8_verifies_partial (kdf : Pbkdf2) (salt pwd : Str) (hp : pwdCheck pwd = .ok ()) :
+    encryptType8 kdf salt pwd =
+      .ok (fmt ['8'] salt (ciscoHash (kdf "sha256" (encodeUtf8 pwd) (encodeUtf8 salt) 20000 32))) := by
+  simp only [encryptType8, hp]; rfl
+
+theorem type9_verifies_partial (kdf : Scrypt) (salt pwd : Str) (hp : pwdCheck pwd = .ok ()) :
+    encryptType9 kdf salt pwd =
+      .ok (fmt ['9'] salt (ciscoHash (kdf (encodeUtf8 pwd) (encodeUtf8 salt) 16384 1 1 32))) := by
+  simp only [encryptType9, hp]; rfl
+
+theorem type5_verifies_partial (kdf : Md5Crypt) (salt pwd : Str) (hp : pwdCheck pwd = .ok ())
+    (hnul : Char.ofNat 0 ∉ pwd) :
+    encryptType5 kdf salt pwd = .ok (fmt ['1'] salt (kdf (encodeUtf8 pwd) salt)) := by
+  simp only [encryptType5, hp]
+  rw [if_neg (by simpa using hnul)]
 
 -- non-vacuity: a constant "KDF" of 32 bytes, a valid salt, an accepted password
 example : encryptType8 (fun _ _ _ _ n => List.replicate n 255) "abcdefghijklmn".toList "pw".toList
